@@ -69,6 +69,26 @@ func c13Body(id int) []byte {
 			b[i] = byte(x >> 24)
 		}
 		return b
+	case 6, 8:
+		// incompressible, compressed size above 32 KiB (the inflate window, io.Copy's buffer) / above 256 KiB
+		n := 40000
+		if id == 8 {
+			n = 300000
+		}
+		b := make([]byte, n)
+		x := uint32(4242 + id)
+		for i := range b {
+			x = x*1664525 + 1013904223
+			b[i] = byte(x >> 24)
+		}
+		return b
+	case 7:
+		// compressible text, 120 KB decompressed (several inflate windows) in a small file
+		b := make([]byte, 120000)
+		for i := range b {
+			b[i] = "LOCUS       acgtacgtnn 1..120\n"[(i+i/977)%30]
+		}
+		return b
 	case 4:
 		b := make([]byte, 3000)
 		for i := range b {
@@ -297,6 +317,67 @@ func c13Eval(c c13Case) (ok bool, sig, detail string) {
 		}
 		return true, "", ""
 	}
+	if c.Kind == "readpat" {
+		// the finished entry read back with a given buffer size (0 = io.Copy) must deliver exactly the bytes written
+		file, _, problem := c13Finished(c.Body)
+		if problem != "" {
+			return false, "baseline", problem
+		}
+		rsum, dsum := c13Sums(c.Body)
+		fs := faultos.Reset()
+		fs.Files[c13Name(rsum, dsum)] = append([]byte(nil), file...)
+		var got []byte
+		var openErr, readErr error
+		if p, msg := engine.Safely(func() {
+			f, err := cache.Open(c13Dir, sha1.New(), rsum, dsum)
+			if err != nil {
+				openErr = err
+				if f != nil {
+					f.Close()
+				}
+				return
+			}
+			defer f.Close()
+			if c.Pat == 0 {
+				var buf bytes.Buffer
+				_, readErr = io.Copy(&buf, f)
+				got = buf.Bytes()
+				return
+			}
+			p := make([]byte, c.Pat)
+			idle := 0
+			for {
+				n, err := f.Read(p)
+				got = append(got, p[:n]...)
+				if err == io.EOF {
+					return
+				}
+				if err != nil {
+					readErr = err
+					return
+				}
+				if n == 0 {
+					if idle++; idle > 100 {
+						readErr = fmt.Errorf("Read returns (0, nil) forever")
+						return
+					}
+				}
+			}
+		}); p {
+			return false, "open-panic", fmt.Sprintf("body %d read with buffer %d: panic: %s", c.Body, c.Pat, msg)
+		}
+		body := c13Body(c.Body)
+		if openErr != nil {
+			return false, "baseline", fmt.Sprintf("body %d: the finished entry does not open: %v", c.Body, openErr)
+		}
+		if readErr != nil {
+			return false, "opened-then-read-error", fmt.Sprintf("body %d read with buffer %d: error after %d of %d bytes: %v", c.Body, c.Pat, len(got), len(body), readErr)
+		}
+		if !bytes.Equal(got, body) {
+			return false, "opened-wrong-bytes", fmt.Sprintf("body %d read with buffer %d (0 = io.Copy): %d bytes delivered, %d written", c.Body, c.Pat, len(got), len(body))
+		}
+		return true, "", ""
+	}
 	file, log, problem := c13Finished(c.Body)
 	if problem != "" {
 		return false, "baseline", problem
@@ -424,7 +505,7 @@ func opName(fs *faultos.FS, k int) string {
 func init() {
 	register(&Check{ID: "C13", Level: "fault_enumeration", Quick: 150 * time.Second, Thor: 30 * time.Minute,
 		Run: func(r *engine.Run) bool {
-			r.Rule = "real cmd/cache on an in-memory device: for bodies {empty, 1 byte, 100 bytes, 3000 bytes (+70 KB multi-block in thorough)}: every byte offset x every non-zero xor mask (small bodies; single-bit masks for large), every truncation length, appended tails of 1..64 bytes, entries stored under a foreign key and with foreign header digests; every crash image of the write log: every subset of writes kept (nothing is synced) x the last kept write torn at every length; every single fault (error, short write/read) at every I/O operation of the write protocol and every pair; distinct key = (kind, body, parameters); non-trivial = image differs from the finished file"
+			r.Rule = "real cmd/cache on an in-memory device: for bodies {empty, 1 byte, 100 bytes, 3000 bytes, 6000 and 40000 bytes incompressible, 120000 bytes compressible (+70 KB and 300 KB incompressible in thorough)}, each read back with 10 buffer sizes (1 byte .. 1 MiB, io.Copy): every byte offset x every non-zero xor mask (small bodies; single-bit masks for large), every truncation length, appended tails of 1..64 bytes, entries stored under a foreign key and with foreign header digests; every crash image of the write log: every subset of writes kept (nothing is synced) x the last kept write torn at every length; every single fault (error, short write/read) at every I/O operation of the write protocol and every pair; distinct key = (kind, body, parameters); non-trivial = image differs from the finished file"
 			complete := true
 			eval := func(c c13Case, size int) {
 				r.Evals.Add(1)
@@ -436,9 +517,9 @@ func init() {
 					r.Fail(engine.Failure{Sig: sig, Case: c, Detail: detail, Size: size})
 				}
 			}
-			bodies := []int{0, 1, 2, 4, 5}
+			bodies := []int{0, 1, 2, 4, 5, 6, 7}
 			if r.Tier == "thorough" {
-				bodies = append(bodies, 3)
+				bodies = append(bodies, 3, 8)
 			}
 			c13Mu.Lock()
 			sizes := map[int]int{}
@@ -459,6 +540,12 @@ func init() {
 				for pat := 1; pat <= 4; pat++ {
 					eval(c13Case{Kind: "pattern", Body: b, Pat: pat}, 1)
 				}
+				for _, bufsz := range []int{0, 1, 7, 512, 4096, 32767, 32768, 32769, 65536, 1 << 20} {
+					if bufsz == 1 && len(c13Body(b)) > 50000 {
+						continue
+					}
+					eval(c13Case{Kind: "readpat", Body: b, Pat: bufsz}, 2)
+				}
 				r.States.Add(1)
 				n := sizes[b]
 				// corruption
@@ -477,7 +564,10 @@ func init() {
 				if n > 20000 && r.Tier != "thorough" {
 					step = 7
 				}
-				for off := 0; off < n && complete; off += step {
+				for off := 0; off < n && complete; off++ {
+					if off%step != 0 && off >= 200 && off < n-400 {
+						continue
+					}
 					for _, m := range masks {
 						eval(c13Case{Kind: "corrupt", Body: b, Off: off, Mask: m}, 100+b)
 					}
